@@ -106,7 +106,7 @@ func (d *Reader) Read(p []byte) (n int, err error) {
 		d.err = io.ErrUnexpectedEOF
 	case d.r.Err() != nil:
 		d.err = d.r.Err()
-	case d.state.pos == d.header.size && d.state.buf.Len() == 0:
+	case d.state.pos >= d.header.size && d.state.buf.Len() == 0:
 		return 0, io.EOF
 	}
 
@@ -130,7 +130,7 @@ func (d *Reader) Read(p []byte) (n int, err error) {
 
 		i = (d.state.r - d.decodePosition() - 1) & (_N - 1)
 		j = c - 255 + _Threshold
-		for k = 0; k < j; k++ {
+		for k = 0; k < j && d.state.pos < d.header.size; k++ {
 			c = int(d.z.textBuf[(i+k)&(_N-1)])
 			if n < len(p) {
 				p[n] = byte(c)
